@@ -332,10 +332,19 @@ def main(run):
          lambda p: dict(radius=p["radius"] - p["thickness"]), dict(radius=(60.0, 90.0)), "radius"),
     ]
     stats["same_name_reparameterisations"] = 2
-    for bname, pdefs, text, tr, ranges, dpar in real:
+    # the same cylinder reparameterisation with the new parameters placed at the FRONT of the table: every untouched
+    # parameter (the SLDs among them) then sits at another position than in the base table; evaluated in 2-D with a
+    # magnetic SLD, where the kernel addresses the SLD slots by index
+    real.append(("cylinder", [["aspect", "", 2.0, [0, inf], "volume", ""], ["rad", "Ang", 20, [0, inf], "volume", ""]],
+                 "radius = rad\nlength = 2.0*aspect*rad",
+                 lambda p: dict(radius=p["rad"], length=2.0 * p["aspect"] * p["rad"]), dict(aspect=(0.5, 8), rad=(10, 60)), "rad",
+                 dict(insert_after={"": "aspect,rad"}, magnetic=True)))
+    stats["moved_sld_magnetic"] = 1
+    real = [r_ if len(r_) == 7 else r_ + (dict(),) for r_ in real]
+    for ri_, (bname, pdefs, text, tr, ranges, dpar, opts) in enumerate(real):
         binfo = load_model_info(bname)
         try:
-            info = reparameterize(binfo, pdefs, text, filename=os.path.join(pdir, "verif_real_%s.py" % bname))
+            info = reparameterize(binfo, pdefs, text, filename=os.path.join(pdir, "verif_real_%s_%d.py" % (bname, ri_)), insert_after=opts.get("insert_after"))
             model = build_model(info, dtype="double", platform="dll")
         except Exception as exc:  # noqa
             run.add(Finding("C16:build:%s" % bname, "reparameterised %s failed to build: %r" % (bname, exc), dict(base=bname, translation=text)))
@@ -350,6 +359,9 @@ def main(run):
             common_pars = dict(scale=rng.uniform(0.5, 2), background=rng.uniform(0, 0.01))
             if oriented and dim == "2d":
                 common_pars.update(theta=rng.uniform(0, 90), phi=rng.uniform(0, 180))
+                if opts.get("magnetic"):
+                    common_pars.update(sld_M0=rng.uniform(0.5, 4), sld_mtheta=rng.uniform(-80, 80), sld_mphi=rng.uniform(-170, 170),
+                                       up_frac_i=rng.choice([0.0, 0.3]), up_frac_f=rng.choice([0.0, 0.8]), up_theta=rng.uniform(0, 180), up_phi=rng.uniform(0, 90))
             other = {}
             for p in info.parameters.kernel_parameters:
                 if p.name not in new and p.type == "volume":
